@@ -9,6 +9,9 @@ Node.policy_probs is wrapped to log the statistics of the node at call time and 
     native solver receives must be model/LambdaF64.v's mirror of c*sqrt(N)/(N+K) (lambda_agrees; the old test
     lambda^2 (N+K)^2 ~ C^2 N within 1e-12 is kept as a sanity check only); the move select_root_move returned must
     be the model's child move and accepted by the model's rules.
+  * the REAL MCTS.get_move on openings, middle games and flats-exhausted-but-capstone-left positions, with an ordinary
+    budget and with a budget that allows no simulation (the clock of tak.mcts replaced): a call that raises returns no
+    move; a returned move must be legal (Position.move on a private copy, and the model's Tak.move).
   * Python oracle (exact fractions): the reported tensor is finite, non-negative, of the form
     lambda*pi_i/(alpha - q_i) for ONE alpha > max q, for the q / lambda / prior the property prescribes; before
     any visit it is the prior; the solver's preconditions (q in [-1,1], prior a positive distribution) hold.
@@ -281,11 +284,120 @@ def report(run, res, model_view):
     })
 
 
+# --------------------------------------------------------------------------
+# the REAL MCTS.get_move, also when the budget allows no simulation at all
+# --------------------------------------------------------------------------
+GETMOVE_CTYPE = "position * mv"
+GETMOVE_CHECK = "fun c => match Tak.move (fst c) (snd c) with Some _ => true | None => false end"
+
+# flats exhausted, a capstone left, game not over (the mover can only place the capstone or slide)
+FLATS_EXHAUSTED = [
+    ("x3/x,1,2/2,1,x 1 3", ((0, 1), (0, 1)), "Config(size=3, pieces=2, capstones=1) after two flats each"),
+    ("x5/x5/x5/x,2,x3/" + "1" * 21 + ",x4 1 12", None, "5x5, default counts: all 21 white flats in one stack, capstone in hand"),
+    ("x6/x6/x6/x6/x,2,x4/" + "1" * 30 + ",x5 1 17", None, "6x6, default counts: all 30 white flats in one stack, capstone in hand"),
+]
+
+
+def get_move_positions(rng, thorough):
+    """(what, structural start description): openings, middle games, flats-exhausted-but-capstone-left, both colours"""
+    out = []
+    for size in (3, 5, 6):
+        out.append((f"opening {size}x{size}", c08.start_from_snap(c08.snap(c08.start_position(size, [])))))
+    out.append(("opening Config(size=3, pieces=2, capstones=1)", c08.tps_start("x3/x3/x3 1 1", ((2, 1), (2, 1)))))
+    for size, plies in ((5, 7), (5, 12), (6, 9)) + (((4, 8), (5, 20), (6, 16)) if thorough else ()):
+        ids = c08.random_opening(rng, size, plies)
+        out.append((f"middle game {size}x{size} after {len(ids)} plies",
+                    c08.start_from_snap(c08.snap(c08.start_position(size, ids)))))
+    for tps, reserves, what in FLATS_EXHAUSTED:
+        out.append((what, c08.tps_start(tps, reserves)))
+        r2 = (reserves[1], reserves[0]) if reserves else None
+        out.append((what + " (colours exchanged)", c08.tps_start(c08.swap_colours(tps), r2)))
+    return out
+
+
+def run_get_move(start, mode, seed, budget):
+    """call the real MCTS.get_move; returns ("raised", class name) or ("move", Move)"""
+    import types
+    import torch
+    from tak import mcts
+    pos = takio.mk_pos(start)
+    ev = c08.Evaluator({"kind": "uniform", "seed": seed, "len": "max", "dyadic": True, "cutoff": 1e-6}, start["size"])
+    torch.manual_seed(seed)
+    if mode == "zero-simulations":
+        cfg = mcts.Config(time_limit=1e-9, simulation_limit=0)
+        clock = {"t": 1000.0}
+
+        def monotonic():
+            clock["t"] += 1.0          # every look at the clock is a second later: the deadline has always passed
+            return clock["t"]
+        real_time = mcts.time
+        mcts.time = types.SimpleNamespace(monotonic=monotonic)
+    else:
+        cfg = mcts.Config(time_limit=0, simulation_limit=budget)
+        real_time = None
+    try:
+        m = mcts.MCTS(cfg, ev).get_move(pos)
+        return "move", m
+    except Exception as e:  # noqa   (no move returned: not a violation of "the move returned is legal")
+        return "raised", type(e).__name__
+    finally:
+        if real_time is not None:
+            mcts.time = real_time
+
+
+def get_move_family(run):
+    import tak
+    rng = run.rng
+    cs = core.Cases(ID, "getmove", c08.HEADER, GETMOVE_CTYPE, GETMOVE_CHECK, shard=40)
+    dist, samples, n = Counter(), [], 0
+    reps = 2 if run.quick else 12
+    for what, start in get_move_positions(rng, not run.quick):
+        sn = c08.snap(takio.mk_pos(start))
+        if c08.outcome(sn) is not None:
+            continue
+        for mode in ("ordinary-budget", "zero-simulations"):
+            for r in range(reps):
+                seed, budget = rng.randrange(1 << 30), rng.randint(2, 10)
+                kind, val = run_get_move(start, mode, seed, budget)
+                n += 1
+                if kind == "raised":
+                    dist[f"{mode}:raised {val}"] += 1
+                    continue
+                dist[f"{mode}:returned a move"] += 1
+                m = val
+                meta = {"what": what, "mode": mode, "seed": seed, "budget": budget, "position": c08.j_snap(sn),
+                        "start": start, "move": takio.j_move(m)}
+                try:
+                    c08.rebuild(sn).move(m)            # on a private copy of the position
+                except tak.IllegalMove as e:
+                    run.violation(f"get_move-{c08.code_chk(c08.snap_code(sn))}-{mode}",
+                                  dict(meta, clause="the move returned for a position is always a legal move of that position: "
+                                                    "MCTS.get_move returned a move that Position.move refuses",
+                                       refused_with=str(e)[:100], reserves_white_black=start["stones"]))
+                    continue
+                cs.add(f"({takio.c_pos(c08.rebuild(sn))}, {takio.c_move(m)})", meta)
+                if len(samples) < 2:
+                    samples.append({k: meta[k] for k in ("what", "mode", "move")})
+    failing, shard_fail, nshards = cs.run()
+    run.oblige(f"correspondence:get_move ({nshards} shards, {len(cs)} returned moves judged by the model's Tak.move)",
+               not shard_fail, str(shard_fail)[:1000])
+    for meta in failing[:5]:
+        run.violation(f"get_move-model-{c08.code_chk(c08.snap_code(c08.snap(takio.mk_pos(meta['start']))))}-{meta['mode']}",
+                      dict(meta, clause="the move returned for a position is always a legal move of that position: "
+                                        "the model's rules (Tak.move) refuse the move MCTS.get_move returned"))
+    run.count(n, len(cs), "one evaluation = one call of the real MCTS.get_move (ordinary budget, and a budget whose deadline has "
+              "passed before the first simulation: time_limit=1e-9, simulation_limit=0, the clock of tak.mcts replaced); a "
+              "call that raises returns no move (recorded, not judged); a returned move must be accepted by Position.move on "
+              "a private copy and by the model's Tak.move; non-trivial = a move was returned", samples, dict(dist),
+              label="get_move")
+
+
 def correspondence(run):
     core.setup_impl(ext=True, shims=True)
     import torch
     torch.set_num_threads(1)
     c08.tie_cutoff(run)
+    get_move_family(run)
     specs = all_specs(run)
     cs = core.Cases(ID, "calls", HEADER, CTYPE, CHECK, show=SHOW, shard=(2 if run.quick else 4))
     dist, total = Counter(), Counter()
@@ -363,6 +475,16 @@ def search(run, broken):
 
 def replay(run, rp):
     core.setup_impl(ext=True, shims=True)
+    if "mode" in rp and "start" in rp:          # a get_move call
+        import tak
+        kind, val = run_get_move(rp["start"], rp["mode"], rp["seed"], rp["budget"])
+        if kind == "raised":
+            return {"violates": False, "get_move": "raised " + val + " (no move returned)"}
+        try:
+            c08.rebuild(c08.snap(takio.mk_pos(rp["start"]))).move(val)
+            return {"violates": False, "get_move": takio.j_move(val), "accepted": True}
+        except tak.IllegalMove as e:
+            return {"violates": True, "get_move": takio.j_move(val), "refused_with": str(e)[:100]}
     spec = rp["spec"]
     trace = c08.do_search(spec, record_solver=True, select=True, after_phase=after_phase)
     problems, st = examine(trace)
